@@ -49,7 +49,22 @@ def _mk_reactor(s, log, total):
     return MCReactor()
 
 
+_QUIET = []
+
+
+def _quiet():
+    """failing thread calls are logged by Twisted; keep them off stderr"""
+    if not _QUIET:
+        try:
+            from twisted.logger import globalLogBeginner
+            globalLogBeginner.beginLoggingTo([lambda e: None], redirectStandardIO=False, discardBuffer=True)
+        except Exception:
+            pass
+        _QUIET.append(1)
+
+
 def run_one(ch, nprod, ncalls):
+    _quiet()
     from twisted.internet.base import ReactorBase
     from twisted.internet import _signals
     codes = [ReactorBase.callFromThread.__code__, ReactorBase.runUntilCurrent.__code__, ReactorBase.wakeUp.__code__,
@@ -63,6 +78,9 @@ def run_one(ch, nprod, ncalls):
 
     def record(p, i):
         ran.append((p, i, threading.get_ident()))
+        if i == 0:
+            # the first call of every producer fails: a failing thread call must not disturb the others
+            raise RuntimeError("thread call %d.%d fails" % (p, i))
 
     def reactor_thread():
         tid["reactor"] = threading.get_ident()
